@@ -80,6 +80,7 @@ def r1_one_rng(ctx):
         ctx.check(k in allowed, 'rng-static-user:%s' % k, 'the RNG static is touched only by rng(), Builder::build (and runtime clean-up)', P.fns[k].where(), k)
     fb = P.fns.get('des::runtime::builder::Builder::build')
     ok = False
+    wb = None
     if fb:
         for b in sorted(fb.reachable()):
             for i, st in enumerate(fb.stmts(b)):
@@ -89,7 +90,15 @@ def r1_one_rng(ctx):
                         v = fb.expr_rvalue(st['r'], b, i)
                         if any(x[0] == 'field' and x[2] == 'rng' for x in walk(v)):
                             ok = True
+                            wb = b
     ctx.check(ok, 'rng-installed', "Builder::build installs the builder's own RNG as the global simulation RNG", fb.where() if fb else None)
+    if ok:
+        # ... while it owns the process-wide simulation lock: a build() on another thread must fail before it can replace the RNG (and
+        # the other process-wide state) of a simulation that is running
+        locks = [c for c in fb.calls() if c.name.split('::')[-1] in ('try_lock', 'lock') and
+                 any(x == ('static', 'des::runtime::builder::SIMULATION_LOCK') for x in walk(fb.expr_operand(c.args[0], c.b, 'T')))]
+        ctx.check(bool(locks) and any(fb.dominates(c.b, wb) and c.b != wb for c in locks), 'rng-installed-under-lock',
+                  'the global RNG is replaced only after the simulation lock was obtained', fb.where(wb))
     # rng() hands out the static
     fr = P.fns.get(RNG_FN)
     ctx.check(fr is not None and fr in users, 'rng-fn', 'runtime::rng() returns the global simulation RNG', fr.where() if fr else None)
